@@ -62,6 +62,13 @@ func (x *world) syncPoint(label string) bool {
 				st.Height, short(st.Hash), x.w.ChainSynced(), tip.Height, short(tip.Hash))
 			return false
 		}
+		if x.prop == "C16" {
+			// a restore that never completes discovers nothing: bounded
+			// liveness once the injected backend failures have stopped
+			x.fail("recovery-not-completed:at="+labelClass(label), "120 simulated seconds after all notifications were delivered the restored wallet is at %d %s (chain synced=%v), the backend tip is %d %s",
+				st.Height, short(st.Hash), x.w.ChainSynced(), tip.Height, short(tip.Hash))
+			return false
+		}
 		// not this property's business: abandon the run quietly
 		x.env.Count("abort.sync-not-reached")
 		x.violated = true
